@@ -428,7 +428,7 @@ def analyse_patterns(rep: C.Report, wd: str) -> None:
 # cost of the hand-written scanners and of receive()
 # ------------------------------------------------------------------------------------------------------------------
 COUNT = r"""
-import sys, json
+import sys, json, time
 sys.setrecursionlimit(1000)
 src = sys.argv[1]
 sys.path.insert(0, src)
@@ -462,12 +462,18 @@ for kind, text in spec:
             cnt[0] += 1
             return local
         return None
+    t0 = time.process_time()
     sys.settrace(tr)
+    mem = 0
     try:
         run(kind, text)
+    except MemoryError:
+        mem = 1
     finally:
         sys.settrace(None)
-    print(cnt[0], flush=True)
+    print(cnt[0], int((time.process_time() - t0) * 1000), mem, flush=True)
+    if mem:
+        break
 """
 
 
@@ -530,7 +536,7 @@ def measure_families(rep: C.Report) -> None:
     src = os.path.join(C.REPO, "src")
     from concurrent.futures import ThreadPoolExecutor
 
-    def one(fam: t.Any) -> t.Tuple[t.List[int], bool]:
+    def one(fam: t.Any) -> t.Tuple[t.List[t.Tuple[int, int]], str]:
         name, kind, growth, gen, params = fam
         spec = [(kind, gen(prm)) for prm in params]
         # the budget is 40 s of CPU time of the measuring process (RLIMIT_CPU), not wall time: a loaded machine must not
@@ -539,6 +545,7 @@ def measure_families(rep: C.Report) -> None:
             import resource
 
             resource.setrlimit(resource.RLIMIT_CPU, (40, 45))
+            resource.setrlimit(resource.RLIMIT_AS, (6 << 30, 6 << 30))  # a blow-up of memory must not take the machine down
 
         pr = subprocess.Popen([sys.executable, "-c", COUNT, src], stdin=subprocess.PIPE, stdout=subprocess.PIPE, stderr=subprocess.PIPE, preexec_fn=limit)
         try:
@@ -548,23 +555,31 @@ def measure_families(rep: C.Report) -> None:
             pr.communicate()
             raise C.MachineryError(f"cost measurement of '{name}' used less than 40 s of CPU in 900 s of wall time: the machine is overloaded") from ex
         timed_out = pr.returncode in (-24, -9)  # SIGXCPU (soft limit) / SIGKILL (hard limit)
-        vals = [int(x) for x in out.decode().split()]
+        rows = [ln.split() for ln in out.decode().splitlines() if ln.strip()]
+        vals = [(int(r[0]), int(r[1])) for r in rows if len(r) == 3]
+        out_of_memory = any(r[2] == "1" for r in rows if len(r) == 3) or (pr.returncode not in (0, -24, -9) and b"MemoryError" in err)
+        if out_of_memory:
+            vals = vals[:-1] if vals and any(r[2] == "1" for r in rows if len(r) == 3) else vals
+            return vals, "memory"
         if not timed_out and len(vals) != len(params):
             raise C.MachineryError(f"cost measurement of '{name}' failed: " + err.decode()[-300:])
-        return vals, timed_out
+        return vals, "cpu" if timed_out else ""
 
     with ThreadPoolExecutor(max_workers=8) as ex:
         measured = list(ex.map(one, fams))
     index = []
     counts = []
-    for fam, (vals, timed_out) in zip(fams, measured):
+    cpu_ms: t.Dict[t.Tuple[str, int], int] = {}
+    for fam, (vals, stopped) in zip(fams, measured):
         name, kind, growth, gen, params = fam
         for prm, v in zip(params, vals):
             index.append((name, prm))
-            counts.append(v)
-        if timed_out:
+            counts.append(v[0])
+            cpu_ms[(name, prm)] = v[1]
+        if stopped:
             prm = params[len(vals)] if len(vals) < len(params) else params[-1]
-            rep.violation(f"scanner-cost/did-not-finish/{name}", f"'{name}' at parameter {prm} ({len(gen(prm))} characters) did not finish within 40 s of CPU time (smaller inputs: {list(zip(params, vals))})",
+            what = "did not finish within 40 s of CPU time" if stopped == "cpu" else "exhausted 6 GB of memory"
+            rep.violation(f"scanner-cost/{'did-not-finish' if stopped == 'cpu' else 'out-of-memory'}/{name}", f"'{name}' at parameter {prm} ({len(gen(prm))} characters) {what} (smaller inputs: {list(zip(params, vals))})",
                           {"family": name, "parameter": prm, "input": gen(prm)[:400]})
     by: t.Dict[str, t.List[t.Tuple[int, int]]] = {}
     for (name, prm), c in zip(index, counts):
@@ -590,6 +605,17 @@ def measure_families(rep: C.Report) -> None:
             row["last_ratio"] = round(ratios[-1], 2) if ratios else 0
             if best >= 5:
                 rep.violation(f"scanner-cost/exponential/{name}", f"cost of '{name}' multiplies by >= 1.6 per added nesting level for {best} consecutive levels ({pts})", row)
+            # the same test on CPU time (work done inside C code - regular expressions, repr, string building - produces no
+            # line events); only levels that already cost 30 ms count, so that noise cannot add up to five doublings
+            tpts = [(d, cpu_ms.get((name, d), 0)) for d, _c in pts]
+            tr_ = [t1 / max(t0_, 1) for (_d0, t0_), (_d1, t1) in zip(tpts, tpts[1:]) if t0_ >= 30]
+            run = bestt = 0
+            for r in tr_:
+                run = run + 1 if r >= 1.6 else 0
+                bestt = max(bestt, run)
+            row["cpu_ms"] = tpts
+            if bestt >= 5:
+                rep.violation(f"scanner-cost/exponential-time/{name}", f"CPU time of '{name}' multiplies by >= 1.6 per added nesting level for {bestt} consecutive levels ({tpts})", row)
         table.append(row)
     rep.extra["scanner_families"] = table
     rep.add_part("measured: Python line events inside sansldap for generated input families (not model checking)", families=len(fams), inputs=len(counts))
